@@ -99,7 +99,7 @@ Definition select_with (rk : list nat) (c : cfg) (pop : list agent) (draws : lis
 Definition select (c : cfg) (pop : list agent) (draws : list (list nat)) :=
   select_with (ranks (means c pop)) c pop draws.
 
-(* ---------- generations: select, then every member is trained/evaluated (fitness appended) ---------- *)
+(* ---------- generations: select, mutate, then every member is trained/evaluated (fitness appended) ---------- *)
 Fixpoint append_fitness (pop : list agent) (fs : list (list Q)) : list agent :=
   match pop with
   | [] => []
@@ -107,13 +107,20 @@ Fixpoint append_fitness (pop : list agent) (fs : list (list Q)) : list agent :=
               :: append_fitness t (tl fs)
   end.
 
+(* Mutations.mutation (second half of tournament_selection_and_mutation): may change everything of an
+   agent except its index and its fitness history *)
+Definition mutate (mut : agent -> P) (pop : list agent) : list agent :=
+  map (fun a => {| a_index := a_index a; a_fitness := a_fitness a; a_body := mut a |}) pop.
+
+(* one generation = (tournament draws, what mutation does to each member, scores appended afterwards) *)
+Definition generation := (list (list nat) * (agent -> P) * list (list Q))%type.
+
 (* [rkf] = the ranking function actually used (any tie-breaking) *)
-Definition gen_step (rkf : list Q -> list nat) (c : cfg) (pop : list agent)
-           (g : list (list nat) * list (list Q)) : list agent :=
-  match select_with (rkf (means c pop)) c pop (fst g) with
-  | Some (_, np) => append_fitness np (snd g)
+Definition gen_step (rkf : list Q -> list nat) (c : cfg) (pop : list agent) (g : generation) : list agent :=
+  match select_with (rkf (means c pop)) c pop (fst (fst g)) with
+  | Some (_, np) => append_fitness (mutate (snd (fst g)) np) (snd g)
   | None => pop
   end.
-Definition run_generations rkf c pop gs := fold_left (gen_step rkf c) gs pop.
+Definition run_generations rkf c pop (gs : list generation) := fold_left (gen_step rkf c) gs pop.
 End Agents.
 Arguments agent : clear implicits.
